@@ -1,7 +1,7 @@
 (* C07 property theorems. Statements only; proofs are `exact lemma`. Third-party compressors appear as universally
    quantified functions with their round-trip behaviour as premises. All theorems are for every input (no bound). *)
 From Coq Require Import ZArith List Bool Lia.
-From OG Require Import C07.Model C07.ModelRows C07.ModelFile C07.ModelPreAgg C07.ModelCMSelf C07.ProofsPreAgg C07.ProofsCMSelf C07.ProofsFile C07.ProofsRows C07.ProofsBase C07.ProofsS8 C07.ProofsInt C07.ProofsBool C07.ProofsFloat C07.ProofsString C07.ProofsSeg.
+From OG Require Import C07.Model C07.ModelRows C07.ModelFile C07.ModelPreAgg C07.ModelCMSelf C07.ModelStats C07.ProofsPreAgg C07.ProofsCMSelf C07.ProofsStats C07.ProofsFile C07.ProofsRows C07.ProofsBase C07.ProofsS8 C07.ProofsInt C07.ProofsBool C07.ProofsFloat C07.ProofsString C07.ProofsSeg.
 Import ListNotations.
 Open Scope Z_scope.
 
@@ -404,3 +404,25 @@ Example C07_ex_chunk_meta_self :
   cm_self_ok dict 1 [0; 1] m = true /\ d_cm_self dict (e_cm_self 1 [0; 1] m) = Some (m, []) /\
   cm_self_ok dict 2 [0; 1] m = false.      (* 1e6 does not divide the times *)
 Proof. vm_compute. repeat split. Qed.
+
+(* ---- the VALUES of the stored statistics ----
+   the repaired builders (first value initialises min and max when both still hold their start values; props/C07/fix3.patch),
+   fed segment by segment, store exactly the reference: first occurrence of the strict minimum / maximum over all rows of
+   the column (floats: NaN never compares), wrapping sum, count - for every column, null pattern and cut into segments *)
+Theorem C07_stats_int_repaired : forall segs, int_build true segs = int_ref_stat (int_reference segs).
+Proof. exact stats_int_repaired. Qed.
+Print Assumptions C07_stats_int_repaired.
+
+Theorem C07_stats_float_repaired : forall fadd segs, fl_build fadd true segs = fl_ref_stat (fl_reference fadd segs).
+Proof. exact stats_float_repaired. Qed.
+Print Assumptions C07_stats_float_repaired.
+
+Theorem C07_stats_int_min_is_min : forall segs m tm,
+  fst (fst (fst (int_reference segs))) = Some (m, tm) ->
+  (forall v t, In (Some v, t) (concat segs) -> sgn64 m <= sgn64 v) /\ In (Some m, tm) (concat segs).
+Proof. exact stats_int_min_is_min. Qed.
+
+Example C07_ex_stats :
+  int_build true [[(Some 5, 10); (None, 20)]; [(Some (M64 - 3), 30); (Some 5, 40)]] = mkStat (M64 - 3) 5 30 10 7 3 /\
+  int_build true [[(Some max_i64, 10)]] = mkStat max_i64 max_i64 10 10 max_i64 1.
+Proof. vm_compute. split; reflexivity. Qed.
